@@ -1,6 +1,11 @@
 from . import M
 D = 'flipjump/interpreter/io_devices/'
 MUTANTS = [
+    M('C17', 'keyboard queue served from the tail (the newest bit first)', D + 'KeyboardIO.py',
+      "        return self._pending_input_bits.popleft()", "        return self._pending_input_bits.pop()", 'C17.EOF'),
+    M('C17', 'EQ keyboard queue is a list served with pop(0), one shared `queue n bits` helper', D + 'KeyboardIO.py',
+      "        return self._pending_input_bits.popleft()", "        return self._pending_input_bits.pop(0)", None,
+      also=[(D + 'KeyboardIO.py', "        self._pending_input_bits: Deque[bool] = deque()", "        self._pending_input_bits: List[bool] = []")]),
     M('C17', 'keyboard queue bound at class level: one deque for every device (seed C17_7)', D + 'KeyboardIO.py',
       """    def __init__(self, event_source: KeyEventSource):
         self.event_source = event_source
